@@ -163,16 +163,16 @@ func classify(c net.Conn, err error) string {
 	if err == nil {
 		idx := addrIndex(c.RemoteAddr().String())
 		c.Close()
-		return fmt.Sprintf("(XOk %d)", idx)
+		return fmt.Sprintf("(Ret (XOk %d))", idx)
 	}
 	var up *fasthttp.ErrDialWithUpstream
 	if !errors.As(err, &up) {
-		return "(XErr 999)"
+		return "(Ret (XErr 999))"
 	}
 	if errors.Is(err, fasthttp.ErrDialTimeout) {
-		return fmt.Sprintf("(XTimeout %d)", addrIndex(up.Upstream))
+		return fmt.Sprintf("(Ret (XTimeout %d))", addrIndex(up.Upstream))
 	}
-	return fmt.Sprintf("(XErr %d)", addrIndex(up.Upstream))
+	return fmt.Sprintf("(Ret (XErr %d))", addrIndex(up.Upstream))
 }
 
 func oracleCoq(o string) string {
@@ -268,6 +268,9 @@ func refDial(to time.Duration, out *time.Duration, wg *sync.WaitGroup) {
 	*out = el - to
 }
 
+// a dial that has not returned this long after its timeout ran out is recorded as Stuck and abandoned
+const stuckSlack = 3 * time.Second
+
 const maxRefLate = 100 * time.Millisecond // the property oracle allows 250 ms
 
 const (
@@ -294,7 +297,7 @@ func runDial(d desc) hlib.Case {
 	for a := 0; a < attempts; a++ {
 		c, rsig, ok := runDialOnce(d)
 		if ok {
-			if !concurrent {
+			if !concurrent || strings.HasSuffix(rsig, "STUCK") {
 				return c
 			}
 			// scenarios whose outcome depends on the order of goroutines must come out the same twice
@@ -356,6 +359,8 @@ func runDialOnce(d desc) (hlib.Case, string, bool) {
 			el    int64
 		}
 		results := make([]res, len(ph.Starts))
+		resCh := make([]chan res, len(ph.Starts))
+		began := make([]time.Time, len(ph.Starts))
 		late := make([]time.Duration, len(ph.Starts))
 		refLate := make([]time.Duration, len(ph.Starts))
 		var wg sync.WaitGroup
@@ -371,18 +376,36 @@ func runDialOnce(d desc) (hlib.Case, string, bool) {
 				wg.Add(1)
 				go refDial(time.Duration(st.To)*time.Millisecond, &refLate[i], &wg)
 			}
-			wg.Add(1)
+			resCh[i] = make(chan res, 1)
+			began[i] = time.Now()
+			lateCh := make(chan time.Duration, 1)
 			go func(i int, st start) {
-				defer wg.Done()
 				b := time.Now()
-				late[i] = b.Sub(t0.Add(time.Duration(st.Off) * time.Millisecond))
+				lateCh <- b.Sub(t0.Add(time.Duration(st.Off) * time.Millisecond))
 				c, err := dialer.DialTimeout(addr, time.Duration(st.To)*time.Millisecond)
 				el := time.Since(b).Milliseconds()
-				results[i] = res{st.T, st.To, classify(c, err), el}
+				resCh[i] <- res{st.T, st.To, classify(c, err), el}
 			}(i, st)
+			select {
+			case late[i] = <-lateCh:
+			case <-time.After(stuckSlack):
+				late[i] = stuckSlack
+			}
 			starts = append(starts, fmt.Sprintf("(%d, %d, %d)", st.Off, st.T, st.To))
 		}
-		wg.Wait()
+		// every dial must return within its timeout plus a generous slack; one that does not is Stuck and is abandoned
+		stuck := false
+		for i, st := range ph.Starts {
+			limit := began[i].Add(time.Duration(st.To)*time.Millisecond + stuckSlack)
+			select {
+			case r := <-resCh[i]:
+				results[i] = r
+			case <-time.After(time.Until(limit)):
+				results[i] = res{st.T, st.To, "Stuck", time.Since(began[i]).Milliseconds()}
+				stuck = true
+			}
+		}
+		wg.Wait() // reference dials only: they end at their own deadline
 		lag := cn.finish()
 		for _, e := range eps {
 			e.close()
@@ -404,17 +427,21 @@ func runDialOnce(d desc) (hlib.Case, string, bool) {
 				stable = false
 			}
 		}
-		if !stable {
+		if !stable && !stuck { // a stuck dial is a finding of its own, whatever the load
 			return hlib.Case{}, "", false
 		}
 		var rs []string
 		for _, r := range results {
 			rs = append(rs, fmt.Sprintf("(%d, %d, %s, %d)", r.t, r.to, r.r, r.el))
 			resSig += fmt.Sprintf("%d:%s;", r.t, r.r)
-			sig[strings.Fields(strings.Trim(r.r, "()"))[0]+fmt.Sprint(len(ph.Starts) > 1)+fmt.Sprint(strings.Contains(oracle, "h"))] = true
+			sig[strings.Fields(strings.NewReplacer("(", "", ")", "", "Ret ", "").Replace(r.r))[0]+fmt.Sprint(len(ph.Starts) > 1)+fmt.Sprint(strings.Contains(oracle, "h"))] = true
 			total++
 		}
 		phases = append(phases, fmt.Sprintf("mkPh %s %s %s %s", oracleCoq(oracle), setidx, hlib.List(starts), hlib.List(rs)))
+		if stuck {
+			resSig += "STUCK"
+			break // the dialer may be wedged: the history so far is the failing case
+		}
 	}
 	return hlib.Case{
 		Coq:  fmt.Sprintf("CDial %d %d %s", d.Cap, d.N, hlib.List(phases)),
@@ -488,29 +515,40 @@ func runStressOnce(d desc) (hlib.Case, bool) {
 		}
 	}()
 	rs := make([]string, d.M)
+	rch := make([]chan string, d.M)
 	var wg sync.WaitGroup
 	cn := startCanary()
 	refSetup()
 	var refLate time.Duration
 	wg.Add(1)
 	go refDial(time.Duration(d.To)*time.Millisecond, &refLate, &wg)
+	began := time.Now()
 	for i := 0; i < d.M; i++ {
-		wg.Add(1)
+		rch[i] = make(chan string, 1)
 		go func(i int) {
-			defer wg.Done()
 			b := time.Now()
 			c, err := dialer.DialTimeout(addr, time.Duration(d.To)*time.Millisecond)
-			rs[i] = fmt.Sprintf("(%s, %d)", classify(c, err), time.Since(b).Milliseconds())
+			rch[i] <- fmt.Sprintf("(%s, %d)", classify(c, err), time.Since(b).Milliseconds())
 		}(i)
 	}
-	wg.Wait()
+	stuck := false
+	limit := began.Add(time.Duration(d.To)*time.Millisecond + stuckSlack)
+	for i := 0; i < d.M; i++ {
+		select {
+		case rs[i] = <-rch[i]:
+		case <-time.After(time.Until(limit)):
+			rs[i] = fmt.Sprintf("(Stuck, %d)", time.Since(began).Milliseconds())
+			stuck = true
+		}
+	}
+	wg.Wait() // the reference dial
 	lag := cn.finish()
 	close(stop)
 	sw.Wait()
 	for _, e := range eps {
 		e.close()
 	}
-	if lag > maxLagSeq || refLate > maxRefLate {
+	if (lag > maxLagSeq || refLate > maxRefLate) && !stuck {
 		return hlib.Case{}, false
 	}
 	return hlib.Case{
